@@ -69,6 +69,10 @@ def conformance(prog, cd, rep, rule="layout-conformance"):
             m = RefMatcher(cd, u, side, emit)
             m.match(ref, normalise(terms, side))
             total += m.nmatched
+            if side == "r":
+                for refname, attr in m.reader_swapped():
+                    rep.fail(rule, mod, fq, f.node, f"[reader] the field the layout calls `{refname}` is decoded into attribute `{attr}`, which is the name of another field of this record (fields exchanged)",
+                             construct=f"{fq} :: {refname} -> {attr}")
             if side == "w":
                 for refname, attr, t in m.swapped():
                     rep.fail(rule, mod, fq, t.stmt or t.node, f"[writer] the field the layout calls `{refname}` carries attribute `{attr}`, which is the name of another field of this record (fields exchanged on both sides?)")
